@@ -177,7 +177,7 @@ ADDENDA = {
     "C03": _HUB, "C10": _HUB,
     "C01": "signature and delta recomputed over short reads (sizes that are no multiple of the block size), both engines",
     "C05": "bases ending in zero bytes cut inside the run; an uncorrupted pair with one literal of 3 MiB through both engines and the CLI",
-    "C08": "all 810 (A, B, archive) instances over two paths x two contents in thorough (a seeded 60 in quick), every kill point each",
+    "C08": "a stale, longer file at the archive's staging name; the recorded state after the completed re-run is judged too; all 810 (A, B, archive) instances over two paths x two contents in thorough (a seeded 60 in quick), every kill point each",
     "C09": "a file in flight that replaces one of the same size; a 200 000-byte file (between one pipe write and one transfer chunk) in every direction; conformance tolerant of one unlogged call per thread with several jobs",
     "C11": "names that a cleaning step would turn into '..' or an absolute path (NUL, blanks, line ends, per-cent escapes, full-width dots); very long refused paths (plain, control characters, backslashes, 2/3/4-byte characters at every alignment), names that contain backslashes and dots; 'refused' is recognised by effect, not by the reply's wording",
     "C12": "frames longer than their CBOR item (zero filler, a complete request as filler), such frames closed inside the filler, a Put under a path that is a file (request fails, session goes on), refused paths of multi-byte characters, staging files of dead servers in the served tree, a Put longer than its input; time-outs are re-checked with a longer limit before they count",
@@ -185,7 +185,7 @@ ADDENDA = {
     "C16": "a zero block and a block tuned to byte sum m*65521, each reached by sliding; multi-MiB sources whose matches all sit off the block grid; first matches just before and just after a normalisation point; a 24 MiB run of new data before a known tail (thorough); engine / signature block-size mismatch at the library level",
     "C17": "5003 consecutive slides at windows 65536 / 65535 / 56000 / 32768; marathon runs of 26-70 million consecutive slides judged at checkpoints by RollingTrace!New",
     "C18": "name sets whose byte order differs from their path order, and one of names that look like staging files, conflict-copies and dot-files; tree results compared as sets",
-    "C19": "as C18 for the planner; listing timestamps at .999999999",
+    "C19": "as C18 for the planner; listing timestamps at .999999999 and before 1970 (negative whole seconds with a fraction)",
     "C20": "every case also decoded through short reads; hostile copy offsets, block sizes valid in their low half only; 'malformed beyond argument => exit 1' is a Monitor clause",
 }
 
